@@ -2,9 +2,12 @@
   C16 driver: JSON request → model call (XgiModel/C16/Gen.lean) → JSON.
   Responses: {"nodes":[…], "edges":[{"$set":[…]},…], "rest":k}  (k = number of unconsumed oracle items),
   decoders: {"c":[…]} / {"all":[…],"ref":[…]}.  Inputs outside the model: {"out":"unmodelled"}.
+  Generators of GenRand.lean: an exception of the Python code is answered {"out":"err:<Class>"}; chung_lu / dcsbm answer
+  {"nodes":[…in view order], "edges":[[id, {"$set": members}],… in creation order], "pairs":[[v,u],…], "rest":k};
+  rationals travel as [numerator, denominator] (requests) and "p/q" strings (responses).
 -/
 import XgiModel.Proto
-import XgiModel.C16.Gen
+import XgiModel.C16.GenRand
 open Lean Xgi.Proto
 
 namespace Xgi.C16.Drive
@@ -43,6 +46,47 @@ def netJ (nodes : List Nat) (edges : List (List Nat)) (rest : Nat) : Json :=
 def answer {α} (nodes : List Nat) : Option (List (List Nat) × List α) → Json
   | none => unmodelled
   | some (es, rest) => netJ nodes es rest.length
+
+def ratJ (q : Rat) : Json := Json.str (toString q.num ++ "/" ++ toString q.den)
+def errJ : Err → Json
+  | .value => Json.mkObj [("out", Json.str "err:ValueError")]
+  | .index => Json.mkObj [("out", Json.str "err:IndexError")]
+  | .zeroDiv => Json.mkObj [("out", Json.str "err:ZeroDivisionError")]
+  | .xgi => Json.mkObj [("out", Json.str "err:XGIError")]
+def resJ {α} (f : α → Json) : Res α → Json
+  | .ok a => f a
+  | .err e => errJ e
+  | .stuck => unmodelled
+
+def intOfJson? : Json → Option Int
+  | .num n => if n.exponent = 0 then some n.mantissa else none
+  | _ => none
+/-- an exact rational sent as `[numerator, denominator]` -/
+def ratOfJson? : Json → Option Rat
+  | .arr a => match a.toList with
+    | [x, y] => do
+      let p ← intOfJson? x; let q ← natOfJson? y
+      if q = 0 then none else some ((p : Rat) / ((q : Nat) : Rat))
+    | _ => none
+  | _ => none
+def getRat? (j : Json) (k : String) : Option Rat := (getField? j k).bind ratOfJson?
+def getRats? (j : Json) (k : String) : Option (List Rat) :=
+  match getField? j k with
+  | some (.arr a) => a.toList.mapM ratOfJson?
+  | _ => none
+def getPairs? (j : Json) (k : String) : Option (List (Nat × Nat)) := do
+  let kk ← getNatss? j k
+  kk.mapM (fun p => match p with | [i, d] => some (i, d) | _ => none)
+
+/-- `dict[key]` for a key that is present (the driver checks presence before calling the model) -/
+def lookupD (l : List (Nat × Nat)) (i : Nat) : Nat := ((l.find? (fun p => p.1 == i)).map (·.2)).getD 0
+
+/-- the bipartite answer of chung_lu / dcsbm: node list, edge dict (id, member set), the incidence trace -/
+def bipJ (nodes : List Nat) : List (Nat × Nat) × List Nat × List Rat → Json
+  | (pairs, g, r) => Json.mkObj [("nodes", natsJ nodes),
+      ("edges", Json.arr ((buildEdges pairs).map (fun e => Json.arr #[natJson e.1, setJ e.2])).toArray),
+      ("pairs", Json.arr (pairs.map (fun p => natsJ [p.1, p.2])).toArray),
+      ("rest", natJson (g.length + r.length))]
 
 def adjOf (edges : List (List Nat)) : Nat → Nat → Bool :=
   fun a b => edges.any (fun e => e == [a, b] || e == [b, a])
@@ -141,6 +185,47 @@ def handleReq (j : Json) : Option Json := do
   | "random_simplicial_complex" =>
     let n ← getNat? j "n"; let sizes ← getNats? j "sizes"; let coins ← getBools? j "coins"
     pure (answer (List.range n) (randomSC n sizes coins))
+  | "watts_strogatz_hypergraph" =>
+    let n ← getNat? j "n"; let d ← getNat? j "d"; let k ← getNat? j "k"; let l ← getNat? j "l"
+    let coins ← getBools? j "coins"; let choices ← getNatss? j "choices"
+    if d = 0 then pure unmodelled else
+    pure (resJ (fun es => netJ (List.range n) es 0) (wattsStrogatz n d k l coins choices))
+  | "chung_lu_hypergraph" =>
+    let k1 ← getPairs? j "k1"; let k2 ← getPairs? j "k2"; let gaps ← getNats? j "gaps"; let rs ← getRats? j "rs"
+    if ¬ (k1.map (·.1)).Nodup ∨ ¬ (k2.map (·.1)).Nodup then pure unmodelled else
+    pure (resJ (bipJ ((sortByDeg k1).map (·.1))) (chungLu k1 k2 gaps rs))
+  | "dcsbm_hypergraph" =>
+    let k1 ← getPairs? j "k1"; let k2 ← getPairs? j "k2"; let g1 ← getPairs? j "g1"; let g2 ← getPairs? j "g2"
+    let om ← getNatss? j "omega"
+    let gaps ← getNats? j "gaps"; let rs ← getRats? j "rs"
+    let rows := om.length
+    let cols := (om.map List.length).foldl min (om.headD []).length
+    -- g1 / g2 must be dicts on exactly the keys of k1 / k2 whose values index omega
+    if ¬ (k1.map (·.1)).Nodup ∨ ¬ (k2.map (·.1)).Nodup ∨ ¬ (g1.map (·.1)).Nodup ∨ ¬ (g2.map (·.1)).Nodup
+        ∨ ¬ (k1.all (fun p => p.1 ∈ g1.map (·.1))) ∨ ¬ (g1.all (fun p => p.1 ∈ k1.map (·.1)))
+        ∨ ¬ (k2.all (fun p => p.1 ∈ g2.map (·.1))) ∨ ¬ (g2.all (fun p => p.1 ∈ k2.map (·.1)))
+        ∨ ¬ (g1.all (fun p => p.2 < rows)) ∨ ¬ (g2.all (fun p => p.2 < cols)) then pure unmodelled else
+    let omega : Nat → Nat → Nat := fun a b => (om.getD a []).getD b 0
+    pure (resJ (bipJ ((sortByDeg k1).map (·.1))) (dcsbm k1 k2 (lookupD g1) (lookupD g2) omega gaps rs))
+  | "uniform_HPPM" =>
+    let n ← getNat? j "n"; let m ← getNat? j "m"; let k ← getRat? j "k"; let eps ← getRat? j "epsilon"; let rho ← getRat? j "rho"
+    let gaps ← getNats? j "gaps"
+    if m = 0 then pure unmodelled else
+    let t := hppmTensor m (hppmIn n m k eps rho) (hppmOut n m k eps)
+    pure (resJ (fun r => Json.mkObj [("nodes", natsJ (List.range n)), ("edges", Json.arr (r.1.map setJ).toArray),
+        ("rest", natJson r.2.length), ("tensor", Json.arr (t.map ratJ).toArray), ("sizes", natsJ (hppmSizes n rho)),
+        ("pks", natsJ (t.map (fun x => match classify x with | .zero => 0 | .one => 1 | .mid => 2)))])
+      (hppm n m k eps rho gaps))
+  | "uniform_erdos_renyi_degree" =>
+    let n ← getNat? j "n"; let m ← getNat? j "m"; let p ← getRat? j "p"; let multi ← getBool? j "multi"
+    let gaps ← getNats? j "gaps"
+    if m = 0 then pure unmodelled else
+    let qj := match erDegreeQ n m p multi with
+      | .ok (.q x) => ratJ x
+      | .ok .nan => Json.str "nan"
+      | _ => Json.null
+    pure (resJ (fun r => Json.mkObj [("nodes", natsJ (List.range n)), ("edges", Json.arr (r.1.map setJ).toArray),
+        ("rest", natJson r.2.length), ("q", qj)]) (erdosRenyiDeg n m p multi gaps))
   | _ => none
 
 def handle (st : Unit) (j : Json) : Unit × Json :=
